@@ -61,7 +61,7 @@ def sample_args(rng, name):
     if name.startswith('davenportDrag'):
         return (pos(rng, 0.001, 2), pos(rng, 5, 40), rng.choice([0.005, 0.01, 0.03]))
     if name.startswith('davenportRough'):
-        return (pos(rng, 0.001, 2), pos(rng, 5, 40), rng.choice([10.0, 20.0, 50.0]), rng.choice([0.03, 0.3]))
+        return (pos(rng, 0.001, 2), pos(rng, 5, 40), rng.choice([10.0, 20.0, 50.0, 7.0, 35.0, 90.0, 12.5]), rng.choice([0.03, 0.3]))
     if name.startswith('ec1') or name.startswith('iec'):
         return (pos(rng, 0.001, 2), pos(rng, 5, 40), pos(rng, 0.5, 4), rng.choice([10.0, 30.0, 80.0, 0.5]))
     if name == 'apiSpectrum':
@@ -126,7 +126,7 @@ def explore(res, rng, n, areas):
             d1, kp = pos(rng, 5, 40), rng.choice([0.005, 0.02])
             checks.append(('davenportDragDim', (d1, kp), area(lambda x: lsm.davenportSpectrumWithDragCoef(x, d1, kp, False), 0, math.inf, d1 / 1200),
                            6 * kp * d1 * d1))
-            uz, z, z0 = pos(rng, 5, 40), rng.choice([10.0, 30.0]), rng.choice([0.03, 0.3])
+            uz, z, z0 = pos(rng, 5, 40), rng.choice([10.0, 30.0, 7.0, 90.0, 12.5]), rng.choice([0.03, 0.3])
             uf = 0.4 * uz / math.log(z / z0)
             checks.append(('davenportRoughDim', (uz, z, z0), area(lambda x: lsm.davenportSpectrumWithRoughnessLength(x, uz, z, z0, False), 0, math.inf, uz / 1200),
                            6 * uf * uf))
